@@ -1,18 +1,63 @@
 import SudsModel.Lemmas.Prefix
+import SudsModel.Lemmas.Promote
 /-!
 # C05 — Wire-format options never change what a request means
 
 Model: `SudsModel/Xml/Prefix.lean` (promotePrefixes, PrefixNormalizer, refitPrefixes, infoset).
-PARTIAL: the whole-tree statements (`promoteStmt`, `normalizeStmt`) are written down but not proved;
-what is proved is the heart of the argument — one hoist step captures nothing and the donor keeps
-its binding — and the witness that the un-repaired rule does capture (D5). The whole-tree claim
-rests on the correspondence (model = code on generated trees) plus the expat oracle.
+The whole-tree statement for `promotePrefixes` is `promote_preserves_infoset` (every well-formed
+tree); the unguarded statement is refuted by `promoteStmt_false`. For the un-repaired rule the D5
+witness shows the capture. PARTIAL: the normaliser and `refitPrefixes` have no whole-tree theorem;
+those rest on the correspondence (model = code on generated trees) plus the expat oracle.
 -/
 namespace Suds.Props.C05
 open Suds.Xml
 
-/-- Full statement (not proved): promotion preserves the infoset of every tree. -/
-def promoteStmt : Prop := ∀ t : Elem, (t.promote true).info [] |>.beq (t.info []) = true
+/-- The statement without any hypothesis on the tree: promotion preserves the infoset of every
+tree. It is false (`promoteStmt_false`): a tree that uses a prefix nobody in scope declares is not
+namespace-well-formed, and a declaration hoisted from a sibling gives that use a meaning. -/
+def promoteStmt : Prop := ∀ t : Elem, ((t.promote true).info []).beq (t.info []) = true
+
+/-- **promotePrefixes preserves the infoset of every namespace-well-formed tree** (any size, depth,
+tables and declarations): with `D` any set of non-special prefixes containing every declared
+prefix, a tree whose prefix uses are all bound (`Elem.WF`: element and attribute prefixes bound,
+`p:rest` attribute values with `p` bound or never declared, tables are dicts) is read by a
+namespace-aware processor exactly as before the pass — same element and attribute namespaces, same
+QName values, same text, same order. -/
+theorem promote_preserves_infoset (D : String → Prop) (hD : ∀ p, D p → lookup p Suds.Gen.specialPrefixes = none)
+    (t : Elem) (hw : t.WF D []) : (t.promote true).info [] = t.info [] := by
+  obtain ⟨i, p, n, e, m, a, tx, kids⟩ := t
+  simp only [Elem.WF] at hw
+  obtain ⟨hk, hn, hp, ha, hkids⟩ := hw
+  obtain ⟨K1, K2, K3, K4⟩ := promoteKids_ok hD kids [] p e m hkids hk hn
+  have R := rel_of_ext_same K1
+  have hrp := rp_of_ext hD hk K2 R.1
+  simp only [Elem.promote, Elem.info]
+  rw [K4 _ (Rel.refl D _), nsOf_rp hrp R.2 hp, attrs_rp hrp a ha]
+
+/-- The same for a subtree promoted below a parent (the recursive step, as `Binding.get_message`
+never calls it but `Element.promotePrefixes` allows): whatever the parent's table becomes, the
+subtree reads the same in it, and everything that resolved at the parent still does. -/
+theorem promote_subtree_preserves_infoset (D : String → Prop) (hD : ∀ p, D p → lookup p Suds.Gen.specialPrefixes = none)
+    (k : Elem) (gamma : Ctx) (ppfx pe : Option String) (pt : Table)
+    (hw : k.WF D ((pt, pe) :: gamma)) (hk : KeysIn D pt) (hn : NodupKeys pt) :
+    (k.promoteIn true gamma ppfx pe pt).1.info (((k.promoteIn true gamma ppfx pe pt).2, pe) :: gamma) =
+      k.info ((pt, pe) :: gamma) ∧
+    ∀ q u, resolvePrefix.resolveUp q ((pt, pe) :: gamma) = some u →
+      resolvePrefix.resolveUp q (((k.promoteIn true gamma ppfx pe pt).2, pe) :: gamma) = some u := by
+  obtain ⟨A1, _, _, A4⟩ := promoteIn_ok hD k gamma ppfx pe pt hw hk hn
+  exact ⟨A4 _ (Rel.refl D _), fun q u h => (A1 q).1 u h⟩
+
+/-- Not namespace-well-formed: `p:z` uses a prefix only a sibling declares. -/
+def unboundUse : Elem :=
+  .mk 1 none "r" none [] [] none
+    [.mk 2 none "x" none [("p", "urn:two")] [] none [],
+     .mk 3 none "y" none [] [] none [.mk 4 (some "p") "z" none [] [] none []]]
+
+theorem promoteStmt_false : ¬ promoteStmt := by
+  intro h
+  have h2 : (((unboundUse.promote true).info []).beq (unboundUse.info [])) = true := h unboundUse
+  revert h2
+  decide
 
 /-- One hoist step, other uses: nothing that resolved below the parent changes its namespace. -/
 theorem hoist_keeps_other_uses (p u : String) (T : Table) (e : Option String) (gamma inner : Ctx)
@@ -56,6 +101,25 @@ theorem promote_keeps_names (fixed : Bool) (i : Nat) (p : Option String) (n : St
 /-- After `refitPrefixes` no element carries a prefix. -/
 theorem refit_removes_element_prefix (ctx : Ctx) (below : Bool) (e : Elem) : (e.refit ctx below).pfx = none := by
   cases e; simp [Elem.refit, Elem.pfx]
+
+/-- Non-vacuity: the D5 tree is well-formed for `D = {e, p}`. -/
+example : d5.WF (· ∈ ["e", "p"]) [] := wfb_sound _ _ _ (by decide)
+
+/-- The decidable form used by the driver: whenever the checker accepts a tree (with the declared
+prefixes `decl`, none of them special), promotion preserves its infoset. -/
+theorem promote_preserves_infoset_checked (decl : List String)
+    (hs : decl.all (fun p => (lookup p Suds.Gen.specialPrefixes).isNone) = true)
+    (t : Elem) (h : t.wfb decl [] = true) : (t.promote true).info [] = t.info [] := by
+  refine promote_preserves_infoset (· ∈ decl) (fun p hp => ?_) t (wfb_sound decl t [] h)
+  have := (List.all_eq_true.mp hs) p hp
+  simpa [Option.isNone_iff_eq_none] using this
+
+/-- What the driver evaluates (`prefix.wf`): a tree accepted by `Elem.wellFormed` keeps its infoset. -/
+theorem wellFormed_preserved (t : Elem) (h : t.wellFormed = true) : (t.promote true).info [] = t.info [] := by
+  simp only [Elem.wellFormed, Bool.and_eq_true] at h
+  exact promote_preserves_infoset_checked t.declared h.1 t h.2
+
+example : d5.wellFormed = true := by decide
 
 example : (d5.promote true).nsp = [("e", "urn:env"), ("p", "urn:one")] := by decide
 example : ((d5.refit [] false).kids.map Elem.expns) = [some "urn:env"] := by decide
